@@ -1079,3 +1079,223 @@ Proof.
     + intros _ g Hg. apply Hown. apply in_allocs_read. rewrite Hn4 in Hg. apply in_tbl_fields in Hg.
       destruct Hg as [Hg|Hg]; [left; simpl in *; intuition|right; right; exact Hg].
 Qed.
+
+(* ---------------------------------------------------------------------------------------------- *)
+(** * E5. fit *)
+
+Definition FS2 (s : fitspec) : list action := sets_loop (length (ft_orders s)) ++ [AAlloc FNknots].
+Definition FS3 (s : fitspec) : list action :=
+  [ASet FExtents0 Null; AAlloc FExtents0; AAlloc FNaxes; AAlloc FStrides; AAlloc FCoeff]
+  ++ kalloc_loop (length (ft_orders s)) ++ [AThrow RInput (ft_fails s)].
+Definition fit_simple (s : fitspec) : list action := [AAlloc FOrder] ++ AAlloc FKnots :: FS2 s ++ AAlloc FExtents :: FS3 s.
+
+Lemma fit_split : forall s,
+  fit_prog cfg_fixed s = [ANdim (length (ft_orders s)); AShape (ft_orders s) (ft_nknots s) (ft_naxes s)] ++ fit_simple s.
+Proof.
+  intros s. unfold fit_prog, fit_simple, FS2, FS3, sets_loop, kalloc_loop. cbn [fx_fit cfg_fixed].
+  rewrite <- !map_as_flat_map. repeat (rewrite <- app_assoc; cbn [app map]). reflexivity.
+Qed.
+
+Lemma simple_fit : forall s, forallb simple_action (fit_simple s) = true.
+Proof.
+  intros s. unfold fit_simple, FS2, FS3, kalloc_loop, sets_loop.
+  repeat (rewrite forallb_app || (rewrite simple_flat_map by (intros; reflexivity)) || (progress simpl)).
+  reflexivity.
+Qed.
+
+Lemma wf_fit : forall s, wf_simple (fit_simple s).
+Proof. intros s. unfold fit_simple, FS2, FS3. wfs. Qed.
+
+Lemma in_allocs_fit : forall s g, In g (allocs (fit_simple s)) <->
+  In g [FOrder; FKnots; FNknots; FExtents; FExtents0; FNaxes; FStrides; FCoeff] \/ (exists i, i < length (ft_orders s) /\ g = FKnot i).
+Proof.
+  intros s g. unfold fit_simple, FS2, FS3.
+  repeat (rewrite ?allocs_app; cbn [allocs]). repeat (rewrite in_app_iff || cbn [In]).
+  rewrite allocs_sets_loop, in_allocs_kalloc_loop. cbn [In]. intuition.
+Qed.
+
+Lemma allocs_fit_tbl : forall s g, In g (allocs (fit_simple s)) <-> In g (tbl_fields (length (ft_orders s))).
+Proof.
+  intros s g. rewrite in_allocs_fit, in_tbl_fields. simpl. intuition.
+Qed.
+
+Lemma touched_fit_nonaux : forall s g, In g (touched (fit_simple s)) -> is_aux_field g = false.
+Proof.
+  intros s g H. unfold fit_simple, FS2, FS3 in H. split_in H.
+  intuition idtac; subst; loop_mem; subst; reflexivity.
+Qed.
+
+Lemma ft_naxes_length : forall s, length (ft_nknots s) = length (ft_orders s) -> length (ft_naxes s) = length (ft_orders s).
+Proof. intros s H. unfold ft_naxes. rewrite map_length, combine_length, H. apply Nat.min_id. Qed.
+
+Lemma aux_flds_full : forall g n k, In g (aux_flds k) -> In g (full_fields n k).
+Proof. intros g n k H. apply in_full_fields. auto. Qed.
+Lemma tbl_fields_full : forall g n k, In g (tbl_fields n) -> In g (full_fields n k).
+Proof. intros g n k H. apply in_full_fields. auto. Qed.
+
+Lemma fit_ok : forall Fr F o m s o' m' r,
+  obj_inv o -> rel Fr o m -> (ft_invalid s = false -> ft_orders s <> [] /\ length (ft_nknots s) = length (ft_orders s)) ->
+  step_fit cfg_fixed F m o s = (o', m', r) -> obj_inv o' /\ rel Fr o' m'.
+Proof.
+  intros Fr F o m s o' m' r I HR Hwf H. unfold step_fit in H.
+  destruct (ft_invalid s); [inversion H; subst; auto|]. destruct (Hwf eq_refl) as [Hne Hlen]. clear Hwf.
+  cbn [fx_fit cfg_fixed andb] in H.
+  destruct (Nat.eqb_spec (ndim o) 0) as [E0|E0]; cbn [negb] in H; [|inversion H; subst; auto].
+  rewrite fit_split in H. cbn [app exec] in H.
+  set (n := length (ft_orders s)) in *.
+  assert (Hn : n <> 0) by (unfold n; destruct (ft_orders s); [congruence|simpl; lia]).
+  pose proof (obj_inv_part0 I HR) as HP.
+  set (o1 := with_shape (with_ndim o n) (ft_orders s) (ft_nknots s) (ft_naxes s)) in *.
+  assert (HP1 : part0 Fr o1 m).
+  { apply (part0_recore o o1 eq_refl); [|exact HP]. intros g id b Hg.
+    change (get o1 g) with (get o g) in Hg. rewrite (oi_claims I _ _ _ Hg).
+    destruct (is_aux_field g) eqn:Ea; [destruct g; try discriminate; reflexivity|].
+    rewrite (oi_tbl0 I E0 _ Ea) in Hg. discriminate. }
+  assert (Hnull : forall g, In g (touched (fit_simple s)) -> get o1 g = Null).
+  { intros g Hg. change (get o1 g) with (get o g). apply (oi_tbl0 I E0). eapply touched_fit_nonaux; eauto. }
+  destruct (exec_simple F (fit_simple s) (simple_fit s) (wf_fit s) Hnull HP1)
+    as [o4 [m4 [r4 [p1 [p2 [E4 [Ep [Er [HP4 [Hc4 [H41 H42]]]]]]]]]]].
+  rewrite E4 in H. unfold core in Hc4. simpl in Hc4. inversion Hc4 as [[Hn4 Ho4 Hk4 Hx4 Ha4 Hl4]].
+  assert (Hsub : forall g, In g (allocs p1) -> In g (allocs (fit_simple s))).
+  { intros g Hg. rewrite Ep, allocs_app. apply in_or_app; left; exact Hg. }
+  assert (Hold : forall g, ~ In g (allocs p1) -> get o4 g = get o g) by (intros g Hg; rewrite (H42 _ Hg); reflexivity).
+  assert (Hfull : forall g, get o4 g <> Null -> In g (full_fields (ndim o4) (naux o4))).
+  { intros g Hg. rewrite Hn4, Ha4. destruct (in_dec field_eq_dec g (allocs p1)) as [Hi|Hi].
+    - apply tbl_fields_full. apply allocs_fit_tbl. apply Hsub. exact Hi.
+    - rewrite (Hold _ Hi) in Hg. pose proof (oi_dom I _ Hg) as Hd.
+      destruct (full_fields_cases _ _ _ Hd) as [Ha|Ha]; [rewrite (oi_tbl0 I E0 _ Ha) in Hg; congruence|apply aux_flds_full; exact Ha]. }
+  assert (Hnew : forall g, is_aux_field g = false -> get o4 g <> Null -> In g (allocs p1)).
+  { intros g Ha Hg. destruct (in_dec field_eq_dec g (allocs p1)) as [Hi|Hi]; [exact Hi|].
+    rewrite (Hold _ Hi), (oi_tbl0 I E0 _ Ha) in Hg. congruence. }
+  destruct r4 as [why|].
+  - assert (HC4 : clearable o4).
+    { apply clearable_intro; [exact Hfull| |].
+      - intros i Hi. apply owned_not_null. apply H41.
+        apply (prefix_dep p1 p2 [AAlloc FOrder] (FS2 s ++ AAlloc FExtents :: FS3 s) FKnots (FKnot i)); [symmetry; exact Ep| |apply Hnew; auto].
+        simpl. intuition discriminate.
+      - intros Hi. apply owned_not_null. apply H41.
+        apply (prefix_dep p1 p2 ([AAlloc FOrder] ++ AAlloc FKnots :: FS2 s) (FS3 s) FExtents FExtents0); [| |apply Hnew; auto].
+        + rewrite <- Ep. unfold fit_simple. rewrite <- app_assoc. reflexivity.
+        + intros Hin. unfold FS2 in Hin. split_in Hin. kill_mem. }
+    destruct (on_failure_ok F why HP4 HC4) as [m5 [E5 HR5]]. rewrite E5 in H. inversion H; subst.
+    split; [apply obj_inv_empty|exact HR5].
+  - cbn [on_failure] in H. inversion H; subst o' m' r. clear H.
+    rewrite (Er eq_refl), app_nil_r in Ep. subst p1.
+    assert (Haux : forall g, is_aux_field g = true -> get o4 g = get o g).
+    { intros g Ha. apply Hold. intros Hin. apply allocs_touched in Hin. apply touched_fit_nonaux in Hin. congruence. }
+    destruct HP4 as [HK4 HG4 HC4 HR4]. split; [|exact HR4].
+    constructor; auto.
+    + intros g. apply no_garbage_get. exact HG4.
+    + rewrite Ha4. intros Hk. rewrite Haux by reflexivity. apply (oi_aux0 I Hk).
+    + rewrite Ha4. intros i Hi. rewrite !Haux by reflexivity. apply (oi_auxi I _ Hi).
+    + rewrite Hl4, Ha4. apply (oi_auxlen I).
+    + rewrite Hx4, Hn4. apply ft_naxes_length. exact Hlen.
+    + intros E. rewrite Hn4 in E. contradiction.
+    + intros _ g Hg. apply H41. apply allocs_fit_tbl. rewrite Hn4 in Hg. exact Hg.
+Qed.
+
+(* ---------------------------------------------------------------------------------------------- *)
+(** * E6. convolve *)
+
+Definition conv_simple (n : nat) : list action := AAlloc FCoeff :: kalloc_loop n.
+
+Lemma convolve_split : forall o dim nk,
+  convolve_prog cfg_fixed o dim nk
+  = map AFreeIf (FCoeff :: map FKnot (idx (ndim o)))
+    ++ [AShape (upd (orders o) dim (nth dim (orders o) 0 + nk - 1)) (upd (nknots o) dim (nth dim (nknots o) 0 * nk))
+               (upd (naxes o) dim (nth dim (nknots o) 0 * nk - (nth dim (orders o) 0 + nk - 1) - 1))]
+    ++ conv_simple (ndim o).
+Proof.
+  intros o dim nk. unfold convolve_prog, conv_simple, kalloc_loop. cbn [fx_conv cfg_fixed].
+  rewrite <- !map_as_flat_map. cbn [map app]. rewrite map_map. repeat (rewrite <- app_assoc; cbn [app]). reflexivity.
+Qed.
+
+Lemma upd_length : forall l i v, length (upd l i v) = length l.
+Proof. intros l i v. unfold upd. rewrite map_length, combine_length. unfold idx. rewrite seq_length. apply Nat.min_id. Qed.
+
+Lemma in_allocs_conv : forall n g, In g (allocs (conv_simple n)) <-> g = FCoeff \/ exists i, i < n /\ g = FKnot i.
+Proof. intros n g. unfold conv_simple. cbn [allocs In]. rewrite in_allocs_kalloc_loop. intuition. Qed.
+Lemma in_touched_conv : forall n g, In g (touched (conv_simple n)) <-> g = FCoeff \/ exists i, i < n /\ g = FKnot i.
+Proof. intros n g. unfold conv_simple. cbn [touched In]. rewrite in_touched_kalloc_loop. intuition. Qed.
+
+Lemma wf_conv : forall n, wf_simple (conv_simple n).
+Proof. intros n. unfold conv_simple. wfs. Qed.
+Lemma simple_conv : forall n, forallb simple_action (conv_simple n) = true.
+Proof. intros n. unfold conv_simple, kalloc_loop. simpl. apply simple_flat_map. intros; reflexivity. Qed.
+
+Lemma convolve_ok : forall Fr F o m dim nk o' m' r,
+  obj_inv o -> rel Fr o m ->
+  step_convolve cfg_fixed F m o dim nk = (o', m', r) -> obj_inv o' /\ rel Fr o' m'.
+Proof.
+  intros Fr F o m dim nk o' m' r I HR H. unfold step_convolve in H. cbn [fx_conv cfg_fixed andb] in H.
+  destruct (Nat.ltb_spec dim (ndim o)) as [Hd|Hd]; cbn [negb orb] in H; [|inversion H; subst; auto].
+  destruct (nk <? 2); [inversion H; subst; auto|].
+  assert (E0 : ndim o <> 0) by lia.
+  rewrite convolve_split in H. rewrite exec_app in H.
+  pose proof (obj_inv_part0 I HR) as HP.
+  destruct (exec_freeifs F (FCoeff :: map FKnot (idx (ndim o))) HP) as [o2 [m2 [E2 [HP2 [Hc2 [H21 H22]]]]]].
+  rewrite E2 in H. cbn [app exec] in H.
+  set (n := ndim o) in *.
+  assert (Hfreed : forall g, In g (FCoeff :: map FKnot (idx n)) <-> g = FCoeff \/ exists i, i < n /\ g = FKnot i).
+  { intros g. cbn [In]. rewrite in_map_iff. split.
+    - intros [<-|[i [<- Hi]]]; [auto|right; exists i; apply in_idx in Hi; auto].
+    - intros [->|[i [Hi ->]]]; [auto|right; exists i; split; [reflexivity|apply in_idx; exact Hi]]. }
+  match type of H with context[exec F (conv_simple n) m2 ?x] => set (o3 := x) in * end.
+  assert (G3 : forall g, get o3 g = get o2 g) by reflexivity.
+  assert (Hknull : forall i, get o2 (FKnot i) = Null).
+  { intros i. destruct (Nat.lt_ge_cases i n) as [Hi|Hi]; [apply H21; apply Hfreed; right; exists i; auto|].
+    rewrite H22 by (rewrite Hfreed; intros [E|[j [Hj E]]]; [discriminate|inversion E; lia]).
+    destruct (get o (FKnot i)) eqn:Eg; try reflexivity; exfalso.
+    all: assert (Hdm : In (FKnot i) (full_fields (ndim o) (naux o))) by (apply (oi_dom I); rewrite Eg; discriminate).
+    all: apply in_full_fields in Hdm; rewrite in_tbl_fields, in_aux_flds in Hdm; fold n in Hdm.
+    all: destruct Hdm as [Hdm|[[Hdm|[j [Hj Hdm]]]|[Hdm|[j [Hj Hdm]]]]]; try discriminate;
+         [simpl in Hdm; intuition discriminate|inversion Hdm; lia|intuition discriminate]. }
+  assert (HP3 : part0 Fr o3 m2).
+  { apply (part0_recore o2 o3 eq_refl); [|exact HP2]. intros g id b Hg. rewrite G3 in Hg.
+    rewrite (p_claims _ _ _ HP2 _ _ _ Hg).
+    destruct g; try reflexivity; exfalso.
+    - rewrite H21 in Hg by (apply Hfreed; auto). discriminate.
+    - rewrite Hknull in Hg. discriminate. }
+  assert (Hnull : forall g, In g (touched (conv_simple n)) -> get o3 g = Null).
+  { intros g Hg. rewrite G3. apply in_touched_conv in Hg. destruct Hg as [->|[i [Hi ->]]]; [apply H21; apply Hfreed; auto|apply Hknull]. }
+  destruct (exec_simple F (conv_simple n) (simple_conv n) (wf_conv n) Hnull HP3)
+    as [o4 [m4 [r4 [p1 [p2 [E4 [Ep [Er [HP4 [Hc4 [H41 H42]]]]]]]]]]].
+  rewrite E4 in H. unfold core in Hc4, Hc2. simpl in Hc4. inversion Hc2 as [[Hn2 Ho2 Hk2 Hx2 Ha2 Hl2]].
+  inversion Hc4 as [[Hn4 Ho4 Hk4 Hx4 Ha4 Hl4]].
+  assert (Hsub : forall g, In g (allocs p1) -> In g (allocs (conv_simple n))).
+  { intros g Hg. rewrite Ep, allocs_app. apply in_or_app; left; exact Hg. }
+  assert (Hold : forall g, ~ In g (allocs (conv_simple n)) -> get o4 g = get o g).
+  { intros g Hg. rewrite H42 by (intros Hi; apply Hg; apply Hsub; exact Hi). rewrite G3. apply H22.
+    rewrite Hfreed. rewrite in_allocs_conv in Hg. exact Hg. }
+  assert (Hfull : forall g, get o4 g <> Null -> In g (full_fields (ndim o4) (naux o4))).
+  { intros g Hg. rewrite Hn4, Hn2, Ha4, Ha2. destruct (in_dec field_eq_dec g (allocs p1)) as [Hi|Hi].
+    - apply tbl_fields_full. apply Hsub in Hi. apply in_allocs_conv in Hi. apply in_tbl_fields.
+      destruct Hi as [->|Hi]; [left; simpl; auto|right; exact Hi].
+    - rewrite (H42 _ Hi), G3 in Hg. apply (oi_dom I).
+      destruct (in_dec field_eq_dec g (FCoeff :: map FKnot (idx n))) as [Hj|Hj]; [rewrite (H21 _ Hj) in Hg; congruence|].
+      rewrite (H22 _ Hj) in Hg. exact Hg. }
+  assert (HownK : is_owned (get o4 FKnots) = true).
+  { rewrite Hold by (rewrite in_allocs_conv; intros [E|[i [_ E]]]; discriminate). apply (oi_tbl I E0). simpl; auto. }
+  assert (HownX : is_owned (get o4 FExtents) = true).
+  { rewrite Hold by (rewrite in_allocs_conv; intros [E|[i [_ E]]]; discriminate). apply (oi_tbl I E0). simpl; auto 10. }
+  destruct r4 as [why|].
+  - assert (HC4 : clearable o4).
+    { apply clearable_intro; [exact Hfull| |]; intros; apply owned_not_null; assumption. }
+    destruct (on_failure_ok F why HP4 HC4) as [m5 [E5 HR5]]. rewrite E5 in H. inversion H; subst.
+    split; [apply obj_inv_empty|exact HR5].
+  - cbn [on_failure] in H. inversion H; subst o' m' r. clear H.
+    rewrite (Er eq_refl), app_nil_r in Ep. subst p1.
+    assert (Haux : forall g, is_aux_field g = true -> get o4 g = get o g).
+    { intros g Ha. apply Hold. rewrite in_allocs_conv. intros [->|[i [_ ->]]]; discriminate. }
+    destruct HP4 as [HK4 HG4 HC4 HR4]. split; [|exact HR4].
+    constructor; auto.
+    + intros g. apply no_garbage_get. exact HG4.
+    + rewrite Ha4, Ha2. intros Hk. rewrite Haux by reflexivity. apply (oi_aux0 I Hk).
+    + rewrite Ha4, Ha2. intros i Hi. rewrite !Haux by reflexivity. apply (oi_auxi I _ Hi).
+    + rewrite Hl4, Ha4, Hl2, Ha2. apply (oi_auxlen I).
+    + rewrite Hx4, Hn4, Hn2, upd_length. apply (oi_len I).
+    + intros E. rewrite Hn4, Hn2 in E. contradiction.
+    + intros _ g Hg. rewrite Hn4, Hn2 in Hg.
+      destruct (in_dec field_eq_dec g (allocs (conv_simple n))) as [Hi|Hi]; [apply H41; exact Hi|].
+      rewrite (Hold _ Hi). apply (oi_tbl I E0). exact Hg.
+Qed.
